@@ -211,9 +211,17 @@ class Built:
         return self.grammar
 
 
-def build(spec: Spec) -> Built:
+class HashMeta(type(ABC)):
+    """Metaclass whose classes hash to a value chosen by the harness: the iteration order of a `set` of classes then follows
+    those values instead of memory addresses -- different "memory layouts" can be emulated within one process."""
+
+    def __hash__(cls):
+        return cls.__dict__.get("_verif_hash", 0) or type.__hash__(cls)
+
+
+def build(spec: Spec, hashes: list[int] | None = None) -> Built:
     """Creates fresh Python classes for a spec (two passes: classes first, then constructors,
-    so that fields may mention any class, including the class itself)."""
+    so that fields may mention any class, including the class itself).  `hashes`: per-class hash values (HashMeta)."""
     uid = next(_counter)
     classes: list[type] = []
     tymap: list = []
@@ -223,7 +231,12 @@ def build(spec: Spec) -> Built:
         if c.parent is not None and c.parent >= i:
             raise ValueError("parents must precede children")
         name = f"{c.name}"
-        cls = type(name, (base,), {"__module__": __name__, "__qualname__": f"{name}_{uid}"})
+        ns = {"__module__": __name__, "__qualname__": f"{name}_{uid}"}
+        if hashes is not None:
+            ns["_verif_hash"] = hashes[i]
+            cls = HashMeta(name, (base,), ns)
+        else:
+            cls = type(name, (base,), ns)
         if c.abstract and c.parent is not None:
             cls = abstract(cls)
         if c.weight is not None:
